@@ -458,7 +458,8 @@ class ProductLaplaceKernel(Kernel):
             # this is \sum_j f(z_j), so the derivative wrt z will be jacobian(f)(z_j) for all z_j
             return coefs @ torch.exp(factor * (dists * (dists >= self.eps))).sum(dim=1)
 
-        return torch.func.jacrev(forward_func)(zm)
+        # chunk_size=1: one backward pass per output instead of vmap; the batched backward of torch.cdist mixes up outputs
+        return torch.func.jacrev(forward_func, chunk_size=1)(zm)
 
 
 class LpqLaplaceKernel(Kernel):
@@ -549,7 +550,8 @@ class LpqLaplaceKernel(Kernel):
             kernel_vals = torch.exp(factor * dist_pow_q)
             return coefs @ kernel_vals.sum(dim=1)
 
-        return torch.func.jacrev(forward_func)(zm)
+        # chunk_size=1: one backward pass per output instead of vmap; the batched backward of torch.cdist mixes up outputs
+        return torch.func.jacrev(forward_func, chunk_size=1)(zm)
 
 class SumPowerLaplaceKernel(Kernel):
     def __init__(self, bandwidth: float, exponent: float, eps: float = 1e-10, const_mix: float = 0.0,
